@@ -829,6 +829,20 @@ def gen_history_inputs(rng, n):
     combos = [[2], [3], [2, 3], [4], [3, 4], [2, 3, 4]]
     for k in range(n):
         cr = crystal(rng, max_N=4 if k % 3 else 3, protos=lowsym)
+        if k % 4 == 1:
+            # "grouping" stream: a genuine cutoff for ONE order only; the orders are then computed together in one
+            # compute_basis_set call and solved — the reference builds every order separately
+            from . import physics as _ph
+            dd = _ph.min_image_distances(cr)
+            vals = np.unique(np.round(dd[dd > 1e-6], 6))
+            od = rng.choice([[2, 3], [3, 2]] if len(cr.numbers) > 3 else [[2, 3], [3, 4], [2, 3, 4], [3, 2], [4, 3]])
+            if len(vals) >= 2:
+                i = rng.randrange(1, len(vals))
+                cv = float((vals[i - 1] + vals[i]) / 2)
+                yield {"crystal": cr, "ops": [("data", 0), ("basis", od), ("solve", sorted(od), rng.random() < 0.5)],
+                       "n_snap": 60, "data_seed": rng.randrange(10 ** 6),
+                       "cutoff": {str(rng.choice(od)): cv}}
+                continue
         ops = [("data", 0)]
         for _ in range(rng.randint(4, 7)):
             r = rng.random()
